@@ -41,6 +41,11 @@ CHECKS.update({
 CHECKS.update({
  "C14": ("exploration", "E3", "bounded-exhaustive enumeration of operation sequences: every sequence of length 1-2 (3 with plain followers; thorough: all plain pairs) over 18 LdapConn/EntryStream methods x modifier subsets x server behaviours {success, rc 32, silence with timeout, disconnect}, executed through Ldap and through LdapConn on identical paused-clock runtimes over a reactive in-memory server; decoded wire transcripts, every return value, stream item and virtual duration must be identical; every method additionally once through the public constructor over a real Unix socket pair against a server thread", "6 C14", BE_NOTE + "; the in-memory lane builds LdapConn through the verif_from_parts hook"),
 })
+E4_NOTE = "trusted: the loopback test servers of the harness (plain threads; native-tls acceptor with a throw-away PKI generated by setup), OpenSSL honouring SSL_CERT_FILE, the OS loopback stack; default feature set (native-tls) only"
+CHECKS.update({
+ "C17": ("fault_enumeration", "E4", "exhaustive enumeration of configuration x server behaviour: {ldaps, StartTLS} x host form x no_tls_verify x 4 certificates x 11 StartTLS answers (refusals, garbage, close, injected cleartext frames, wrong message ID) x 3 handshake behaviours against a real TLS server on loopback; oracle: the only cleartext message is one StartTLS request followed by TLS records, establishment succeeds iff the answer is success, the handshake completes and the certificate is trusted for the name or verification is off, and a bind after establishment is seen only inside TLS and gets the in-TLS answer", "6 C17", E4_NOTE),
+ "C18": ("fault_enumeration", "E4", "exhaustive enumeration of URL x settings x API: schemes x host forms x ports x StartTLS x pre-opened stream kinds x timeouts x {LdapConnAsync, LdapConn}, ldapi path forms, unknown schemes, unparsable strings, silent-server timeout cases, against loopback listeners (127.0.0.1/::1 ports 389, 636, ephemeral; Unix sockets) that record who was contacted; a reference function predicts the contacted listener or the error class; nothing may panic or hang", "6 C18", E4_NOTE),
+})
 NA = {}
 import os
 props=[json.loads(l) for l in open('/verif/properties.jsonl')]
